@@ -51,10 +51,10 @@ class _Scn(object):
 
 
 SCENARIOS = [
-    _Scn('c01.rand', ('randmio_und', 'randmio_dir', 'randmio_und_connected', 'randmio_dir_connected'), {'quick': 8000, 'thorough': 600000}),
-    _Scn('c01.latt', ('latmio_und', 'latmio_dir', 'latmio_und_connected', 'latmio_dir_connected'), {'quick': 6000, 'thorough': 500000}),
-    _Scn('c01.part', ('randomize_graph_partial_und',), {'quick': 3000, 'thorough': 200000}),
-    _Scn('c01.rbu', ('randomizer_bin_und',), {'quick': 3000, 'thorough': 200000}),
+    _Scn('c01.rand', ('randmio_und', 'randmio_dir', 'randmio_und_connected', 'randmio_dir_connected'), {'quick': 16000, 'thorough': 600000}),
+    _Scn('c01.latt', ('latmio_und', 'latmio_dir', 'latmio_und_connected', 'latmio_dir_connected'), {'quick': 12000, 'thorough': 500000}),
+    _Scn('c01.part', ('randomize_graph_partial_und',), {'quick': 6000, 'thorough': 200000}),
+    _Scn('c01.rbu', ('randomizer_bin_und',), {'quick': 6000, 'thorough': 200000}),
 ]
 
 RULE = ('one run = one call of one rewiring/latticisation routine on a generated network (n 4..12/16, ten graph families, binary/int/float '
